@@ -48,6 +48,8 @@ type Contract struct {
 	Props       []string
 	GhostUpd    []*AnchorClause
 	ChanInv     map[string]ast.Expr // channel class name -> invariant over "m"
+	ChanNoDrop  map[string]bool
+	Assumes     []*AnchorClause
 	Lines       []string
 }
 
@@ -269,6 +271,18 @@ func parseContractFile(path, pkg string) (*ContractFile, error) {
 			default:
 				return nil, fail(fmt.Errorf("unknown loop clause %q", w3))
 			}
+		case "assume":
+			// assume after make <chan var> : expr   -- ghost attributes of a freshly made channel
+			when, r2 := splitWord(rest)
+			idx := strings.Index(r2, ":")
+			if idx < 0 || when != "after" || !strings.HasPrefix(strings.TrimSpace(r2), "make ") {
+				return nil, fail(fmt.Errorf("assume after make <channel> : expr"))
+			}
+			e, err := parseExprSrc(strings.TrimSpace(r2[idx+1:]))
+			if err != nil {
+				return nil, fail(err)
+			}
+			cur.Assumes = append(cur.Assumes, &AnchorClause{Anchor: strings.TrimSpace(r2[:idx]), When: when, Expr: e, Src: strings.TrimSpace(r2[idx+1:])})
 		case "assert", "update":
 			// assert before|after <anchor> : expr        update after <anchor> : ghost.x = expr
 			when, r2 := splitWord(rest)
@@ -343,8 +357,16 @@ func parseContractFile(path, pkg string) (*ContractFile, error) {
 			// channel <class> invariant <expr over m>
 			name, r2 := splitWord(rest)
 			w3, r3 := splitWord(r2)
+			if w3 == "nodrop" {
+				// every send on this channel class must be an unconditional send statement (not a select case)
+				if cur.ChanNoDrop == nil {
+					cur.ChanNoDrop = map[string]bool{}
+				}
+				cur.ChanNoDrop[name] = true
+				continue
+			}
 			if w3 != "invariant" {
-				return nil, fail(fmt.Errorf("channel <name> invariant <expr>"))
+				return nil, fail(fmt.Errorf("channel <name> invariant <expr> | channel <name> nodrop"))
 			}
 			e, err := parseExprSrc(r3)
 			if err != nil {
